@@ -328,6 +328,10 @@ func checkC14(r *Run) {
 		if rp.Panic != "" {
 			r.Eval()
 			key := "converter-panics/" + maskMsg(truncate(rp.Panic, 90))
+			if strings.Contains(rp.Panic, "nil pointer") && hasNullCollectionElement(m.doc.Val, false) {
+				// root cause: elements of collections of nullable references are dereferenced without a nil guard
+				key = "converter-panics/null-element-of-collection"
+			}
 			if doc, ok := m.doc.Val.(map[string]any); ok {
 				for _, as := range m.b.Constructor.Assignments {
 					if as.Value.Argument == nil {
